@@ -32,7 +32,8 @@ class SymRng:
         self.on_draw = on_draw
         self.name = name
 
-    def uniform(self, lo=0.0, hi=1.0, size=None):
+    def uniform(self, low=0.0, high=1.0, size=None):        # numpy's parameter names (callers may use keywords)
+        lo, hi = low, high
         shape = tuple(size) if isinstance(size, (tuple, list)) else (size,)
         a = EArr.fresh("rnd", shape, numpy.float64)
         qs = [z3.Int("q_u%d" % d) for d in range(len(shape))]
